@@ -672,8 +672,10 @@ def backoff_iter(start, stop, count=None, factor=2.0, jitter=False):
             cur_ret = cur - (cur * jitter * random.random())
         yield cur_ret
         i += 1
-        if reach_stop and i == count and cur < stop:
-            count += 1  # the float log above rounded down, keep going
+        if reach_stop and i == count and cur < stop and cur * factor > cur:
+            # the float log above rounded down, keep going (unless cur
+            # is too small to grow at all, which would never end)
+            count += 1
         if cur == 0:
             cur = 1
         elif cur < stop:
